@@ -25,11 +25,17 @@ def ops_case(ctx, case):
     K = 1
     for s in shape:
         K *= max(s, 1)
-    feat = rnd.choice([(), (3,), (2, 4)])
+    feat = rnd.choice([(), (3,), (2, 4), (B,), (B, B)])  # incl. feature dims equal to the batch size
     # x[b] carries tag b in every entry (+ a per-entry offset so content, not just the tag, is checked)
     base = torch.arange(B).float().reshape(B, *([1] * len(feat))) * 1000
     off = torch.arange(int(torch.tensor(feat).prod()) if feat else 1).float().reshape(*feat) if feat else torch.zeros(())
     x = base + off
+    layout = rnd.choice(["contiguous", "strided_view", "expanded"])
+    if layout == "strided_view":
+        x = torch.stack([x, x + 7.0], -1)[..., 0]  # same values, non-contiguous memory
+    elif layout == "expanded" and feat:
+        x = (torch.arange(B).float() * 1000).reshape(B, *([1] * len(feat))).expand(B, *feat)  # stride-0 feature dims
+    ctx.count(f"c12_layout_{layout}")
     td = TensorDict({"a": x.clone(), "ids": torch.arange(B), "nested": TensorDict({"c": x.clone() + 0.5}, batch_size=[B])}, batch_size=[B])
     fp_x, fp_td = x.clone(), td_fingerprint(td.flatten_keys())
     arg = shape if len(shape) > 1 or rnd.random() < 0.5 else shape[0]
